@@ -30,6 +30,18 @@ def g_args(F, X):
           "config/lib.rs validate_args: sanity+its-stave, trigger period outside `check all its-stave` (3 sites), exit code 0, "
           "input stats file missing / without extension / extension other than json, toml (compared with Path::extension) -- 8 rejections, in this order")
 
+    # the option combination is validated BEFORE anything with a side effect runs: init_config parses, validates (returning the rejection
+    # with `?`), and only then handles the custom checks (which may WRITE custom_checks.toml) and publishes the configuration (seed C16-J)
+    csrc = X.strip_comments(X.read(X.FP + "/config.rs"))
+    cb = X.fn_body(csrc, "init_config")
+    w = None
+    if cb:
+        c = re.sub(r"\s+", " ", cb)
+        i1, i2, i3 = c.find("cfg.validate_args()?;"), c.find("cfg.handle_custom_checks()"), c.find("CONFIG.set(cfg)")
+        w = 0 <= i1 < i2 < i3 and c.count("validate_args") == 1 and c.count("handle_custom_checks") == 1
+    F.add("args_validated_before_side_effects", "bool", w, True,
+          "config.rs init_config: parse; validate_args()?; handle_custom_checks(); CONFIG.set -- in this order")
+
 
 def register(X, EXTRA):
     EXTRA.append(lambda F: g_args(F, X))
